@@ -369,6 +369,8 @@ class C13(DecProp):
             w = rng.randint(4097, 65535)
             szs.append((w, rng.randint(1, max(1, (1 << 27) // w))))
         out += [f"SZ {w} {h}" for (w, h) in szs]
+        # one decoder, pictures of equal area and another shape one after the other (P lines: plane sizes and chroma stride of each)
+        out += core.gen_lines("shapeswitch", rng.randint(1, 10 ** 6), 0)
         return out
 
     def compare(self, case, impl, other):
